@@ -71,7 +71,7 @@ def write_config(wd, c):
             f.write("VIEW View\n")
         for i in range(1, 16):
             f.write("INVARIANT C%02d_OK\n" % i)
-        f.write("INVARIANT RegistriesDisjoint\nINVARIANT SlotAccounting\nINVARIANT RefinesSlotAccounting\nINVARIANT PrintLeaf\nCONSTRAINT DepthBound\nCHECK_DEADLOCK FALSE\n")
+        f.write("INVARIANT RegistriesDisjoint\nINVARIANT SlotAccounting\nINVARIANT RefinesSlotAccounting\nINVARIANT TerminalOK\nINVARIANT KernelOK\nINVARIANT PrintLeaf\nCONSTRAINT DepthBound\nCHECK_DEADLOCK FALSE\n")
     return mod
 
 
